@@ -263,6 +263,24 @@ CHECKS["C11"] = dict(
     technique="Coq/MathComp proof (Schur complement, positivity) + generated formulas + difference-quotient runs on the implementation",
     design="4/C11")
 
+CHECKS["C08"] = dict(
+    text="Theorems: an ordered pool map returns the sequential result for every order in which workers finish (any "
+         "permutation of the indices), so any two schedules agree; writing solved sub-problems back gives each tube its own "
+         "results whatever the order and grouping of the sub-problems; paged storage under an injective prefix numbering is "
+         "exactly the in-memory per-tube dictionaries (refinement), a shared prefix is refuted; consecutive numbering over the "
+         "whole receiver is injective.  Regenerated from the source on every run: every pool call is an ordered map/imap over "
+         "tubes, edges or sub-problems with results paired in the same order; the prefix is the global tube number; "
+         "copy_results takes over every result dictionary; the progress decorator is a pass-through.  Tied to the code by "
+         "running the real SolutionManager pipeline (thermal, spring-system structural with scikit-fem/NEML creep-plasticity, "
+         "creep-fatigue life, ceramic reliability) on small receivers under different (nthreads, paging, progress) "
+         "configurations, both dispatch branches of the system solver, and comparing every stored array, life and "
+         "reliabilities bit for bit.",
+    note="partial: purity of the worker function (process isolation, what dill carries across) and bit-identical floating-point "
+         "reduction order are exercised by the configuration runs, not modelled; the thermohydraulic (coupled) thermal solver's "
+         "pool is covered by the source facts only.",
+    technique="Coq proof (permutations, refinement to an abstract store) + generated dispatch facts + differential pipeline runs",
+    design="4/C08")
+
 NOT_YET = {}
 
 def main():
